@@ -52,6 +52,8 @@ def oracle(c, out):
     name = c["core"]
     opq = name.startswith("opaque")
     site = name.split(":")[-1] if opq else name.split(":")[0]
+    if "E:argmod" in out:
+        fails.append((site + ":caller-argument-modified", "a call changed a series / horizon object that belongs to the caller"))
     # ---- (a) remembered = union of all observations, later wins (time-ordered, NaN = no observation)
     in_order = True
     max_label = None
